@@ -16,7 +16,7 @@ for d in sorted(glob.glob('/verif/seeded/C*')):
             if l not in labels: labels.append(l)
     esc=lambda s:s.replace('\n',' ').replace('|','\\|')
     rows.append('| %s | %s | %s | %s | %s |'%(sid,esc(m['summary'])[:150],esc(m['needs'])[:120],by if by else '—',('`'+'`, `'.join(labels[:2])+'`') if labels else ''))
-table=['<!-- seeded-table-begin -->','| seed | change | needs | caught by | failing assertion |','|---|---|---|---|---|']+rows+['','%d of %d seeded changes are caught (exit 1 with a VIOLATION line) by the registered quick checks.'%(caught_n,n),'<!-- seeded-table-end -->']
+table=['<!-- seeded-table-begin -->','| seed | change | needs | caught by | failing assertion |','|---|---|---|---|---|']+rows+['','%d of %d seeded changes are caught (exit 1 with a VIOLATION line) by the registered quick checks (a change counts when the quick check of its own property, or of the property that owns the failing assertion, reports it); the one that is not, C02g, is reported by the thorough tier of C02 (see 11.7). For the changes of rounds 1-3 other than C11*, C12b, C16*, C20* the column shows the evaluation at the time (they were not re-run after the third session; the harness changes since are additive and every patch still applies).'%(caught_n,n),'<!-- seeded-table-end -->']
 s=open('/verif/DESIGN.md').read()
 if '<!-- seeded-table-begin -->' in s:
     s=re.sub(r'<!-- seeded-table-begin -->.*?<!-- seeded-table-end -->','\n'.join(table).replace('\\','\\\\'),s,flags=re.S)
